@@ -46,7 +46,7 @@ pub fn prop() -> Prop {
         stub: &["transport", "store", "glue", "random source", "byte-corrupting network/storage"],
         independent: &["hostile dictionary from the Python reference (ref/hostile/*.json)"],
         ref_sample: |_| 0,
-        required_probes: &["structured_scalars_accepted", "type_Identifier", "type_SigningShare", "type_VerifyingShare", "type_VerifyingKey", "type_SigningKey", "type_Nonce", "type_NonceCommitment", "type_CoefficientCommitment", "type_Signature", "type_SignatureShare", "type_Delta", "type_Sigma", "type_Randomizer", "composite_SecretShare", "composite_KeyPackage", "composite_PublicKeyPackage", "composite_PublicKeyPackage_pre3", "composite_SigningNonces", "composite_SigningCommitments", "composite_SigningPackage", "composite_dkg_round1_Package", "composite_dkg_round1_SecretPackage", "composite_dkg_round2_Package", "composite_dkg_round2_SecretPackage", "version_fault", "ciphersuite_fault_bin", "ciphersuite_fault_json", "cross_suite_payload", "hostile_elements", "hostile_scalars", "zero_identifier_rejected", "zero_signing_key_rejected", "identity_rejected"],
+        required_probes: &["commitment_encodings_round_trip", "one_entry_commitment_round_trip", "structured_scalars_accepted", "type_Identifier", "type_SigningShare", "type_VerifyingShare", "type_VerifyingKey", "type_SigningKey", "type_Nonce", "type_NonceCommitment", "type_CoefficientCommitment", "type_Signature", "type_SignatureShare", "type_Delta", "type_Sigma", "type_Randomizer", "composite_SecretShare", "composite_KeyPackage", "composite_PublicKeyPackage", "composite_PublicKeyPackage_pre3", "composite_SigningNonces", "composite_SigningCommitments", "composite_SigningPackage", "composite_dkg_round1_Package", "composite_dkg_round1_SecretPackage", "composite_dkg_round2_Package", "composite_dkg_round2_SecretPackage", "version_fault", "ciphersuite_fault_bin", "ciphersuite_fault_json", "cross_suite_payload", "hostile_elements", "hostile_scalars", "zero_identifier_rejected", "zero_signing_key_rejected", "identity_rejected"],
         prepare: None,
     }
 }
@@ -373,6 +373,12 @@ fn composite<C: Suite, T: Wire + PartialEq + std::fmt::Debug>(v: &T, tag: &str, 
                 }
                 let own = crc32(C::ID.as_bytes()).to_be_bytes();
                 if b[0] != 0 || b[1..5] != own {
+                    // the library's own encoder wrote ANOTHER ciphersuite's identifier into the header of this suite's value
+                    if b[0] == 0 {
+                        if let Some(other) = OTHER_IDS.iter().find(|o| **o != C::ID && b[1..5] == crc32(o.as_bytes()).to_be_bytes()) {
+                            return Some(Violation::new("C12", "C12.foreign_ciphersuite_accepted", format!("{name} (binary) of {} is encoded with the ciphersuite identifier of {other} in its header - and decodes", C::ID)));
+                        }
+                    }
                     return Some(Violation::new("C12", "harness", format!("{name}: unexpected header layout {}", hexs(&b[..5]))));
                 }
                 for ver in [1u8, 2, 0x7f, 0x80, 0xff] {
@@ -846,6 +852,31 @@ fn exec_c<C: Suite>(scen: &Scenario) -> Exec {
             let decodes = sw.decodes;
             rep.evaluations += decodes;
             return Exec::Violation(Violation::new("C12", "C12.round_trip_failed", format!("envelope {kind:?} does not decode and re-encode to the same bytes: {ok:?}")), rep);
+        }
+        // the commitment inside a share or a round-one package has encodings of its own (a list of element encodings, and one
+        // concatenated string) for applications that store the parts themselves: both round-trip - also for the one-entry
+        // commitment a refresh at threshold 2 carries
+        let commitment = match kind {
+            Kind::DealerShare | Kind::RefreshShare => dec::<SecretShare<C>>(scen.wire, b).ok().map(|v| v.commitment().clone()),
+            Kind::DkgR1 => dec::<dkg::round1::Package<C>>(scen.wire, b).ok().map(|v| v.commitment().clone()),
+            _ => None,
+        };
+        if let Some(c) = commitment {
+            sw.decodes += 2;
+            let n_entries = c.serialize().map(|v| v.len()).unwrap_or(0);
+            let whole = c.serialize_whole().map_err(|e| format!("{e:?}")).and_then(|w| frost::keys::VerifiableSecretSharingCommitment::<C>::deserialize_whole(&w).map_err(|e| format!("{e:?}")));
+            let list = c.serialize().map_err(|e| format!("{e:?}")).and_then(|l| frost::keys::VerifiableSecretSharingCommitment::<C>::deserialize(l).map_err(|e| format!("{e:?}")));
+            for (route, r) in [("serialize_whole / deserialize_whole", whole), ("serialize / deserialize", list)] {
+                match r {
+                    Ok(back) if back == c => {}
+                    Ok(_) => return Exec::Violation(Violation::new("C12", "C12.round_trip_failed", format!("commitment with {n_entries} entries ({kind:?}) via {route}: decoded value differs")), rep),
+                    Err(e) => return Exec::Violation(Violation::new("C12", "C12.round_trip_failed", format!("commitment with {n_entries} entries ({kind:?}) via {route} does not round-trip: {e}")), rep),
+                }
+            }
+            sw.rep.probe("commitment_encodings_round_trip");
+            if n_entries == 1 {
+                sw.rep.probe("one_entry_commitment_round_trip");
+            }
         }
     }
     let _: Option<SigningNonces<C>> = None;
